@@ -670,7 +670,7 @@ where
                                 .reason_code(DisconnectReasonCode::KeepAliveTimeout)
                                 .build()
                             {
-                                events.extend(self.process_send_v5_0_disconnect(disconnect));
+                                self.send_keep_alive_timeout_disconnect(disconnect, &mut events);
                             }
                         }
                     }
@@ -695,7 +695,7 @@ where
                                 .reason_code(DisconnectReasonCode::KeepAliveTimeout)
                                 .build()
                             {
-                                events.extend(self.process_send_v5_0_disconnect(disconnect));
+                                self.send_keep_alive_timeout_disconnect(disconnect, &mut events);
                             }
                         }
                     }
@@ -3716,6 +3716,22 @@ where
             .unwrap();
         events.extend(self.process_send_v5_0_disconnect(disconnect));
         events.push(GenericEvent::NotifyError(e));
+    }
+
+    /// A keep-alive timeout always ends the connection: with the DISCONNECT if it fits the
+    /// peer's Maximum Packet Size, without it otherwise
+    fn send_keep_alive_timeout_disconnect(
+        &mut self,
+        disconnect: v5_0::Disconnect,
+        events: &mut Vec<GenericEvent<PacketIdType>>,
+    ) {
+        if self.validate_maximum_packet_size_send(disconnect.size()) {
+            events.extend(self.process_send_v5_0_disconnect(disconnect));
+        } else {
+            self.status = ConnectionStatus::Disconnected;
+            self.cancel_timers(events);
+            events.push(GenericEvent::RequestClose);
+        }
     }
 
     fn refresh_pingreq_recv(&mut self) -> Vec<GenericEvent<PacketIdType>> {
